@@ -464,7 +464,7 @@ class ClientSSM(SSM):
                 self.restart_timer(self.segmentTimeout)
 
             # final ack received?
-            elif self.sentAllSegments:
+            elif self.sentAllSegments and (apdu.apduSeq == (self.segmentCount - 1) % 256):
                 if _debug: ClientSSM._debug("    - all done sending request")
                 self.set_state(AWAIT_CONFIRMATION, self.apduTimeout)
 
@@ -1104,7 +1104,7 @@ class ServerSSM(SSM):
                 self.restart_timer(self.segmentTimeout)
 
             # final ack received?
-            elif self.sentAllSegments:
+            elif self.sentAllSegments and (apdu.apduSeq == (self.segmentCount - 1) % 256):
                 if _debug: ServerSSM._debug("    - all done sending response")
                 self.set_state(COMPLETED)
 
